@@ -1,4 +1,4 @@
-CONSTANTS N = 8  NOrig = 5  NLoc = 3  MaxLevel = 999  Typed = FALSE  MaxSet = 3  NBlk = 0  BlkGrid = FALSE
+CONSTANTS N = 8  NOrig = 5  NLoc = 2  MaxLevel = 999  Typed = TRUE  MaxSet = 3  NBlk = 2  BlkGrid = TRUE
 SPECIFICATION TSpec
 CONSTRAINT Progress
 POSTCONDITION Report
